@@ -244,7 +244,7 @@ func (g *Gen) StandaloneV1() []types.Transaction {
 				ok = false
 			}
 		}
-		if ok && len(t.SiafundInputs) == 0 {
+		if ok && len(t.SiafundInputs) == 0 && len(t.SiacoinInputs) > 0 {
 			out = append(out, t)
 		}
 	}
@@ -261,7 +261,7 @@ func (g *Gen) StandaloneV2() []types.V2Transaction {
 				ok = false
 			}
 		}
-		if ok {
+		if ok && len(t.SiacoinInputs) > 0 {
 			out = append(out, t.DeepCopy())
 		}
 	}
@@ -913,6 +913,32 @@ func (g *Gen) Step() string {
 	w, rng := g.W, g.Rng
 	tip := w.TipID()
 	switch a := rng.Intn(100); {
+	case a < 3: // a set that names the same new transaction twice (transactions without inputs: nothing makes the second copy invalid)
+		tag := make([]byte, 16)
+		rng.Bytes(tag)
+		if rng.Bool() && w.V1Allowed() && w.Node.CM.Tip().Height >= w.Net.N.HardforkV2.AllowHeight {
+			t := types.Transaction{ArbitraryData: [][]byte{append([]byte("verif-dup-"), tag...)}}
+			set := []types.Transaction{t, t}
+			if rng.Bool() {
+				if f := g.FreshV1(1, false); len(f) == 1 {
+					set = []types.Transaction{t, f[0], t}
+				}
+			}
+			g.AddV1(set, nil, "same-transaction-twice", -1, false)
+			return "twice-v1"
+		}
+		if !w.V2Allowed() {
+			return "skip"
+		}
+		t := types.V2Transaction{ArbitraryData: append([]byte("verif-dup-"), tag...)}
+		set := []types.V2Transaction{t, t.DeepCopy()}
+		if rng.Bool() {
+			if f := g.FreshV2(1, false, w.FreeCoins()); len(f) == 1 {
+				set = []types.V2Transaction{t, f[0], t.DeepCopy()}
+			}
+		}
+		g.AddV2(tip, set, nil, "same-transaction-twice", -1, false)
+		return "twice-v2"
 	case a < 12: // fresh v1 set
 		if !w.V1Allowed() {
 			return "skip"
